@@ -109,3 +109,12 @@ func (d *D) Bits(nBits int) []byte {
 	b, err := d.TryBits(nBits)
 	lastBits = append(lastBits[:0], b)`, ExpectKey: "Bits"})
 }
+
+func init() {
+	AddControl(Control{ID: "c06-sentinel-frames", Prop: "C06", Rule: "C06.sentinel", File: "internal/recoverfn/recoverfn.go",
+		Old: "	if bottomIndex != -1 {\n		endIndex = bottomIndex - bottomSkip", New: "	if bottomPC != 0 {\n		endIndex = bottomIndex - bottomSkip", ExpectKey: "(internal/recoverfn.Raw).frames|bottomIndex#1"})
+	AddControl(Control{ID: "c18-lazy-once-moved", Prop: "C18", Rule: "C18.lazy", File: "format/wasm/wasm.go",
+		Old: "	d.Endian = decode.LittleEndian\n\n	// delayed initialization", New: "	d.Endian = decode.LittleEndian\n	decodeWASMModule(d)\n\n	// delayed initialization", ExpectKey: "format/wasm.instrMap|reader:format/wasm.decodeInstruction"})
+	AddControl(Control{ID: "c18-cachekey-mismatch", Prop: "C18", Rule: "C18.cachekey", File: "pkg/interp/interp.go",
+		Old: "i.includeCache[filename] = q", New: "i.includeCache[filenamePart] = q", ExpectKey: "pkg/interp.Interp.includeCache|(*pkg/interp.Interp).Eval$2"})
+}
